@@ -78,30 +78,31 @@ def check(s):
              necessary_for="the reward is computed for the executed (clipped) action and the transition taken")
         eq("C04.4", "dones", row.get("dones"), ref["done"], "row.dones == terminal(s1) | truncate(s1) of the pre-reset successor",
            "dones-field", "done = terminal or truncated")
-        # C04.5 — bootstrap
+        # C04.5 — bootstrap (selections expanded over Boolean atoms, so cond / where / additive spellings agree; rewards are finite)
         rw = row.get("rewards")
-        crw = nz.canon(rw) if rw is not None else None
-        is_ite = isinstance(crw, tuple) and crw and crw[0] == "ite"
-        s.ob("C04.5", con, is_ite, "row.rewards is a selection between a bootstrapped and a plain reward", loc, key="rewards-not-select",
-             detail=show_term(crw) if crw else "missing")
-        if is_ite:
-            want = nz.ite(ref["boot_pred"], ref["boot_val"], ref["r"])
-            pred_ok = crw[1] == want[1] if (isinstance(want, tuple) and want[0] == "ite") else False
-            if isinstance(want, tuple) and want[0] == "ite":
-                s.ob("C04.5", con, pred_ok, "the bootstrap predicate is `truncation & ~termination`", loc, key="bootstrap-predicate",
-                     detail=f"code predicate:      {show_term(crw[1], 300)}\nreference predicate: {show_term(want[1], 300)}",
-                     necessary_for="a step ended only by truncation bootstraps; a true termination never bootstraps")
-                # branches compared under the code's own predicate orientation
-                alt = nz.ite(("raw-pred",), ref["boot_val"], ref["r"])
-                branches_code = {crw[2], crw[3]}
-                s.ob("C04.5", con, nz.canon(ref["boot_val"]) in branches_code and nz.canon(ref["r"]) in branches_code,
-                     "the two branches are r + γ·V(obs(successor)) (pre-reset successor, post-action policy state) and r", loc,
-                     key="bootstrap-branches",
-                     detail=f"code branches: {show_term(crw[2], 300)} | {show_term(crw[3], 300)}\nreference: {show_term(nz.canon(ref['boot_val']), 300)} | {show_term(nz.canon(ref['r']), 100)}",
-                     necessary_for="γ·V(successor observation) is added to a truncated step's reward")
-                if pred_ok:
-                    s.ob("C04.5", con, crw == want, "bootstrapped branch is selected when the predicate holds (branch order)", loc,
-                         key="bootstrap-branch-order", detail=f"{show_term(crw, 300)}")
+        nzp = Normalizer(b, ite_poly=True)
+        got5 = nzp.canon(rw) if rw is not None else None
+        want5 = nzp.canon(("ite", ref["boot_pred"], ref["boot_val"], ref["r"]))
+        ok5 = got5 == want5
+        key5, why5 = "bootstrap-formula", ""
+        if not ok5 and got5 is not None:
+            # name the failing part: same branches under another predicate, or same predicate with other branches
+            for label, pred in (("truncation", "trunc"), ("done", "done"), ("termination", "term"), ("truncation & termination", "trunc & term"), ("~termination", "~term")):
+                alt = s.ref(b, pred, ref)
+                if got5 == nzp.canon(("ite", alt, ref["boot_val"], ref["r"])):
+                    key5, why5 = "bootstrap-predicate", f"the bootstrap is applied under `{label}` instead of `truncation & ~termination`"
+            if got5 == nzp.canon(("ite", ref["boot_pred"], ref["r"], ref["boot_val"])):
+                key5, why5 = "bootstrap-branch-order", "the bootstrapped value is selected when the predicate is FALSE"
+            if got5 == nzp.canon(ref["r"]):
+                key5, why5 = "bootstrap-missing", "no bootstrap at all"
+        s.ob("C04.5", con, ok5, "row.rewards == r + [truncation & ~termination]·γ·V(obs(pre-reset successor)) with the post-action policy state", loc, key=key5,
+             detail=(why5 + "\n" if why5 else "") + f"code normal form:      {show_term(got5, 600) if got5 else 'missing'}\nreference normal form: {show_term(want5, 600)}",
+             necessary_for="a step ended only by truncation has γ·V(successor observation) added to its reward; a true termination never bootstraps")
+        # unconditional sub-clauses of the bootstrap
+        vals = [x for x in walk(rw) if isinstance(x, tuple) and x and x[0] == "call" and x[1] == ("attr", ("param", "policy"), "value")] if rw is not None else []
+        s.ob("C04.5", con, len(vals) == 1 and nz.canon(("item", vals[0], 1)) == nz.canon(s.ref(b, "policy.value(nps, env.observation(s1, key=K))[1]", ref)),
+             "the bootstrap value is V(post-action policy state, observation of the pre-reset successor)", loc, key="bootstrap-value-inputs",
+             detail="; ".join(show(v, maxlen=200) for v in vals))
         # C04.6 resets
         eq("C04.6", "env_state", st.get("env_state"), ref["env_next"],
            "carried env state == cond(done, env.initial(), successor)", "env-reset", "after a done step the environment restarts from a fresh initial state")
@@ -223,5 +224,5 @@ out = eqx.combine(lax.cond(pred, lambda: part[0][0], lambda: part[0][1]), part[1
         guard = [t for t, v in lives[0].conds]
         s.ob("C04.10", con10, any("tree_equal" in show(t) for t in guard), "static parts are compared with eqx.tree_equal before selecting", loc10,
              key="static-guard", detail="; ".join(show(t, maxlen=120) for t in guard))
-    for r, n in (("C04.1", 4), ("C04.2", 8), ("C04.3", 4), ("C04.4", 2), ("C04.5", 6), ("C04.6", 4), ("C04.7", 6), ("C04.8", 7), ("C04.9", 6), ("C04.10", 3)):
+    for r, n in (("C04.1", 4), ("C04.2", 8), ("C04.3", 4), ("C04.4", 2), ("C04.5", 4), ("C04.6", 4), ("C04.7", 6), ("C04.8", 7), ("C04.9", 6), ("C04.10", 3)):
         s.floor(r, n)
